@@ -2434,7 +2434,9 @@ fn probe_semi_anti_parallel(
                                     .as_any()
                                     .downcast_ref::<arrow::array::BooleanArray>(
                                 ) {
-                                    if bool_arr.len() > 0 && bool_arr.value(0) {
+                                    // NULL is not TRUE: a residual that evaluates to NULL for this
+                                    // pair (e.g. `v > 1` over a NULL v) must not count as a match.
+                                    if bool_arr.len() > 0 && bool_arr.is_valid(0) && bool_arr.value(0) {
                                         if swapped {
                                             probe_matched_batch[probe_row]
                                                 .store(true, Ordering::Relaxed);
